@@ -43,6 +43,7 @@ func (e *Engine) loopHead(st *State, fr *Frame, li *loopInfo) (stop bool) {
 	if back {
 		next := Add(lc.iter, One)
 		ctx := mk(next)
+		ctx.goal = true
 		for _, u := range ls.Unfolds {
 			ctx.unfold(u)
 		}
@@ -63,6 +64,7 @@ func (e *Engine) loopHead(st *State, fr *Frame, li *loopInfo) (stop bool) {
 	}
 	// first arrival
 	ctx0 := mk(Zero)
+	ctx0.goal = true
 	for _, u := range ls.Unfolds {
 		ctx0.unfold(u)
 	}
@@ -111,6 +113,18 @@ func (e *Engine) loopHead(st *State, fr *Frame, li *loopInfo) (stop bool) {
 	}
 	for _, inv := range ls.Invs {
 		st.assume(ctx.evalBool(inv.E))
+	}
+	for _, ap := range ls.Applies {
+		e.applyLemma(st, ctx, ap, fmt.Sprintf("loop%d", li.ord), li.pos)
+	}
+	for i, as := range ls.Asserts {
+		lbl := as.Label
+		if lbl == "" {
+			lbl = fmt.Sprint(i)
+		}
+		gctx := *ctx
+		gctx.goal = true
+		e.oblige(st, "assert", fmt.Sprintf("loop%d.%s", li.ord, lbl), -1, gctx.evalBool(as.E), "intermediate assertion at loop head: "+as.Text, li.pos)
 	}
 	if ls.Decreases != nil {
 		lc.variant = mk(iter).evalInt(ls.Decreases)
@@ -230,4 +244,53 @@ func rangeIndexCell(fr *Frame, li *loopInfo) *Cell {
 		}
 	}
 	return nil
+}
+
+// applyLemma uses a ghost lemma function's contract at a specification point: its preconditions
+// become obligations, its postconditions assumptions. Arguments are specification expressions.
+func (e *Engine) applyLemma(st *State, ctx *specCtx, ap Expr, where string, pos token.Pos) {
+	guard := True
+	if b, isImp := ap.(*EBin); isImp && b.Op == "==>" {
+		guard = ctx.evalBool(b.X)
+		ap = b.Y
+	}
+	call, ok := ap.(*ECall)
+	if !ok {
+		panic(&SpecError{"apply needs a call expression (optionally guarded: cond ==> Lemma(args))"})
+	}
+	id, ok := call.Fun.(*EIdent)
+	if !ok {
+		panic(&SpecError{"apply needs a lemma name"})
+	}
+	var spec *FuncSpec
+	var pkg *ssa.Package
+	for p, ps := range e.Specs {
+		if fs := ps.Funcs[id.Name]; fs != nil && (p == ctx.pkg || spec == nil) {
+			spec, pkg = fs, p
+		}
+	}
+	if spec == nil {
+		panic(&SpecError{"apply: unknown lemma " + id.Name})
+	}
+	if len(spec.Modifies) > 0 || !spec.HasMod {
+		panic(&SpecError{"apply: lemma " + id.Name + " must declare 'modifies nothing'"})
+	}
+	fn := LookupFunc(e.Prog, pkg, spec.Key)
+	if fn == nil || len(fn.Params) != len(call.Args) {
+		panic(&SpecError{"apply: lemma " + id.Name + " not found or wrong number of arguments"})
+	}
+	env := map[string]Val{}
+	for i, p := range fn.Params {
+		env[p.Name()] = ctx.eval(call.Args[i])
+	}
+	sub := &specCtx{e: e, st: st, env: env, heaps: ctx.heaps, oldHeaps: ctx.heaps, pkg: pkg, iters: e.freshIters(st, id.Name)}
+	for i, r := range spec.Requires {
+		sub.goal = true
+		rq := sub.evalBool(r.E)
+		sub.goal = false
+		e.oblige(st, "pre@apply", fmt.Sprintf("%s.%s.%d", where, id.Name, i), -1, Implies(guard, rq), "lemma precondition: "+r.Text, pos)
+	}
+	for _, en := range spec.Ensures {
+		st.assume(Implies(guard, sub.evalBool(en.E)))
+	}
 }
